@@ -1,7 +1,7 @@
 SPECIFICATION Spec
 CONSTANTS
   MaxActs = 2
-  Emit = FALSE
+  Emit = "none"
 INVARIANT TypeOK
 INVARIANT LayoutPreserved
 INVARIANT EmitLayout
